@@ -73,6 +73,11 @@ def obsOf (s : String) : Option Obs :=
 
 end OwnWire
 
+def logPair (s : String) : Option (List Char × List Char) :=
+  match s.splitOn "/" with
+  | [a, b] => do pure (← Wire.charsOf a, ← Wire.charsOf b)
+  | _ => none
+
 /-- `none`: not a command of this cluster -/
 def handle (toks : List String) : Option String :=
   match toks with
@@ -94,6 +99,18 @@ def handle (toks : List String) : Option String :=
   | "chan" :: rest =>
     some (match Wire.case rest with
     | some c => Wire.obs (Chan.run c)
+    | none => "bad-op")
+  | "chanlog" :: rest =>
+    -- consumer-level C08: the expected log of every command is the output it returned
+    let (_, ot) := splitAt2 rest "||"
+    some (match ot.mapM logPair with
+    | some ps => " ".intercalate (ps.map fun p =>
+        Wire.chars p.1 ++ "/" ++ (if p.1.filter (· != '\r') == p.2.filter (· != '\r') then Wire.chars p.2 else Wire.chars p.1))
+    | none => "bad-op")
+  | "spec" :: "C08X" :: rest =>
+    let (_, ot) := splitAt2 rest "||"
+    some (match ot.mapM logPair with
+    | some ps => if Spec.consumerLog ps then "1" else "0"
     | none => "bad-op")
   | "own" :: rest =>
     some (match rest.mapM OwnWire.op with
